@@ -15,7 +15,7 @@ RULE = ("(a) make_readable(mode=0) over the C01 pair classes x 4 (large,very_rea
         "schedule of 0-6 entries sorted or not, target 1..22): result is None / the input, or three ints 0..255 within max(tolerance)+0.05 of the "
         "input; (c) every call of the multi-phase search made inside mode-1/2 runs is recorded by attribute replacement: chain starts at the "
         "original, each step starts from the original or the previous output, each output within its schedule's maximum, the colour finally "
-        "returned is the original or a step output. Non-trivial = result differs from the input; distinct = distinct argument tuple.")
+        "returned is the original or a step output; strict mode is also asked through make_readable_bulk (mode=0 positional / keyword). Non-trivial = result differs from the input; distinct = distinct argument tuple.")
 ASSUMPTIONS = ["own CIEDE2000 (oracles cielab+ciede2000, self-tested on the 34 published pairs); 0.05 slack = the agreement C11 grants the library's measurement",
                "routine names are auxiliary observation points: an absent attribute skips that sub-check (counted), API clause (a) still decides"]
 MUST_OBSERVE = {"any": ["strict_judged", "cli_strict_cards_judged"]}   # routine / chain sub-checks are auxiliary (skipped and counted when a name is absent)
